@@ -1,7 +1,10 @@
 (* C09 -- a future yields its operation's result or done; the shared state is freed once.
    Model: Proto/FutureDefs.v (module Future), proofs: Proto/FutureProofs.v.
    p_fixed = false is the code as written, p_fixed = true the code with the repairs of
-   findings 7 and 13.  final p sched = the state after running schedule sched from init p. *)
+   findings 7, 13 and 14.  final p sched = the state after running schedule sched from init p.
+   Conditions: away7 p = not (value whose copy throws and the future is dropped);
+   away13 p = the program is not PStop; away14 p = the program is not PConnDrop;
+   awaited p = the program is PAwait or PStop. *)
 From Coq Require Import List Bool Arith.
 From V Require Import Base.Sched Proto.FutureDefs Proto.FutureProofs.
 Import ListNotations.
@@ -13,18 +16,34 @@ Theorem C09_reach_complete : forall (p : params) (sched : list nat) (tr : list e
 Proof. intros p. exact (reach_inv p (reach p) (reach_closed p)). Qed.
 Print Assumptions C09_reach_complete.
 
-(* deleted <= 1, and = 1 at quiescence: as written AND fixed, all outcomes / faults / programs *)
+(* deleted <= 1, and = 1 at quiescence: fixed code, all outcomes / faults / programs; code as
+   written away from finding 14 *)
 Theorem C09_deleted_once : forall (p : params) (sched : list nat),
   let s := final p sched in
+  p_fixed p || away14 p = true ->
   deleted (g s) <= 1 /\ (quiescent s = true -> deleted (g s) = 1).
 Proof. exact deleted_once. Qed.
 Print Assumptions C09_deleted_once.
 
+Theorem C09_deleted_once_fixed :
+  forall (o : outcome) (fault : bool) (pr : prog) (sched : list nat),
+  let p := {| p_fixed := true; p_out := o; p_fault := fault; p_prog := pr |} in
+  let c := run step sched (init p, []) in
+  deleted (g (fst c)) <= 1 /\ (quiescent (fst c) = true -> deleted (g (fst c)) = 1) /\
+  length (filter is_dealloc (snd c)) = deleted (g (fst c)).
+Proof.
+  intros o fault pr sched. cbv zeta. split; [|split].
+  - apply (deleted_once _ sched). reflexivity.
+  - apply (deleted_once _ sched). reflexivity.
+  - apply trace_deallocs.
+Qed.
+Print Assumptions C09_deleted_once_fixed.
+
 (* the stored result is destroyed exactly once and the member destroyed is the member
-   constructed: fixed code, all parameters; code as written away from finding 7 *)
+   constructed: fixed code, all parameters; code as written away from findings 7 and 14 *)
 Theorem C09_result_destroyed_once_and_matching : forall (p : params) (sched : list nat),
   let s := final p sched in
-  p_fixed p || away7 p = true ->
+  p_fixed p || (away7 p && away14 p) = true ->
   (destroyed (g s) = [] \/ exists c, constructed (g s) = Some c /\ destroyed (g s) = [c]) /\
   (quiescent s = true ->
      destroyed (g s) = match constructed (g s) with Some c => [c] | None => [] end).
@@ -50,13 +69,10 @@ Theorem C09_future_result : forall (p : params) (sched : list nat),
   length (roots (g s)) <= 1 /\
   (roots (g s) = [] \/ roots (g s) = [if ab_won (g s) then RDone else expected p]) /\
   (quiescent s = true ->
-     roots (g s) = match p_prog p with
-                   | PDrop => []
-                   | _ => [if ab_won (g s) then RDone else expected p]
-                   end) /\
-  (ab_won (g s) = true -> ext_stop (m s) = true /\ p_prog p = PStop) /\
+     roots (g s) = if awaited p then [if ab_won (g s) then RDone else expected p] else []) /\
+  (ab_won (g s) = true -> ext_stop (m s) = true /\ (p_prog p = PStop \/ p_prog p = PConnDrop)) /\
   (ab_won (g s) = true -> op_won (g s) = true -> False) /\
-  (quiescent s = true -> p_prog p <> PDrop -> ab_won (g s) = true \/ op_won (g s) = true).
+  (quiescent s = true -> awaited p = true -> ab_won (g s) = true \/ op_won (g s) = true).
 Proof. exact future_result. Qed.
 Print Assumptions C09_future_result.
 
@@ -67,15 +83,15 @@ Theorem C09_drop_or_cancel_stops_op : forall (p : params) (sched : list nat),
      (op_won (g s) = false -> src_stop (g s) = true) /\
      (drop_init (g s) = true -> src_stop (g s) = true) /\
      (ab_won (g s) = true -> src_stop (g s) = true)) /\
-  (src_stop (g s) = true -> p_prog p = PDrop \/ ext_stop (m s) = true).
+  (src_stop (g s) = true -> awaited p = false \/ ext_stop (m s) = true).
 Proof. exact drop_or_cancel_stops_op. Qed.
 Print Assumptions C09_drop_or_cancel_stops_op.
 
 (* no step touches freed shared state (and no assert / terminate branch is taken):
-   fixed code, all parameters; code as written away from finding 13 *)
+   fixed code, all parameters; code as written away from findings 13 and 14 *)
 Theorem C09_no_access_after_delete : forall (p : params) (sched : list nat),
   let s := final p sched in
-  p_fixed p || away13 p = true -> uaf (g s) = false /\ bad (g s) = false.
+  p_fixed p || (away13 p && away14 p) = true -> uaf (g s) = false /\ bad (g s) = false.
 Proof. exact no_access_after_delete. Qed.
 Print Assumptions C09_no_access_after_delete.
 
@@ -144,6 +160,17 @@ Theorem C09_no_access_after_delete_refuted :
 Proof. exact no_access_after_delete_refuted. Qed.
 Print Assumptions C09_no_access_after_delete_refuted.
 
+(* finding 14: the stop callback is registered by connect; a stop request before the (never
+   happening) start runs abandon; destroying the operation state calls drop, which finds
+   abandoned and calls std::terminate (in the model: bad, Fut stops, nothing is ever freed) *)
+Theorem C09_drop_after_abandon_refuted :
+  exists sched,
+    let c := run step sched (init p_finding14, []) in
+    quiescent (fst c) = true /\ bad (g (fst c)) = true /\ deleted (g (fst c)) = 0 /\
+    In ETerminate (snd c) /\ src_stop (g (fst c)) = true.
+Proof. exact drop_after_abandon_refuted. Qed.
+Print Assumptions C09_drop_after_abandon_refuted.
+
 (* ---- the hypotheses are met by concrete non-trivial runs ------------------------------------ *)
 
 (* the same two schedules on the FIXED model: drop re-reads error and destroys error_; the stop
@@ -190,4 +217,17 @@ Example C09_example_negotiate_future_deletes :
            EEvL EvSig; EPost; EStL FAband;
            EStC CsComplete FAband FError false; EStC CsNegotiate FAband FComplete true;
            EStC CsConsume FComplete FComplete false; EDealloc; ERoot RDone].
+Proof. vm_compute. repeat split. Qed.
+
+(* the schedule of finding 14 on the fixed model: drop finds abandoned, wins the CAS abandoned ->
+   complete and leaves; the operation then finds complete and deletes *)
+Example C09_example_fixed_finding14_schedule :
+  let p := {| p_fixed := true; p_out := OVal; p_fault := false; p_prog := PConnDrop |} in
+  let c := run step (sched_finding14 ++ [1]) (init p, []) in
+  quiescent (fst c) = true /\ bad (g (fst c)) = false /\ deleted (g (fst c)) = 1 /\ roots (g (fst c)) = [] /\
+  snd c = [EExtAcq true 0 2; EExtRel 0; EExtAcq true 0 3; EExtRel 1;
+           EStC CsAbandon FInit FAband true; ESrcSet; ESrcEnd; EEvX EvNull; ECbDone;
+           EExtAcq false 1 3; EExtRel 1; EExtAcq false 1 3; EExtRel 1; ECbWait; EStL FAband;
+           EStC CsComplete FAband FValue false; EStC CsNegotiate FAband FComplete true;
+           EStC CsDropNeg FComplete FComplete false; EDealloc].
 Proof. vm_compute. repeat split. Qed.
